@@ -942,7 +942,7 @@ struct reb_particle reb_particle_from_orbit_err(double G, struct reb_particle pr
             return reb_particle_nan();
         }
     }
-    if(e*cos(f) < -1.){
+    if(e*cos(f) <= -1.){
         *err = 5;		// Unbound orbit can't have f set beyond the range allowed by the asymptotes set by the parabola.
         return reb_particle_nan();
     }
